@@ -90,6 +90,10 @@ impl Xot {
     /// ```
     pub fn append(&mut self, parent: Node, child: Node) -> Result<(), Error> {
         self.add_structure_check(Some(parent), child)?;
+        // nothing to do if the child is the last child already
+        if self.last_child(parent) == Some(child) {
+            return Ok(());
+        }
         self.remove_consolidate_text_nodes(self.previous_sibling(child), self.next_sibling(child));
         if self.add_consolidate_text_nodes(child, self.last_child(parent), None) {
             return Ok(());
@@ -331,6 +335,10 @@ impl Xot {
     /// It is now the new first node of the parent.
     pub fn prepend(&mut self, parent: Node, child: Node) -> Result<(), Error> {
         self.add_structure_check(Some(parent), child)?;
+        // nothing to do if the child is the first child already
+        if self.first_child(parent) == Some(child) {
+            return Ok(());
+        }
         self.remove_consolidate_text_nodes(self.previous_sibling(child), self.next_sibling(child));
         if self.add_consolidate_text_nodes(child, None, self.first_child(parent)) {
             return Ok(());
@@ -373,8 +381,12 @@ impl Xot {
     /// # Ok::<(), xot::Error>(())
     /// ```
     pub fn insert_after(&mut self, reference_node: Node, new_sibling: Node) -> Result<(), Error> {
-        self.sibling_reference_check(reference_node)?;
+        self.sibling_reference_check(reference_node, new_sibling)?;
         self.add_structure_check(self.parent(reference_node), new_sibling)?;
+        // nothing to do if the node follows the reference node already
+        if self.next_sibling(reference_node) == Some(new_sibling) {
+            return Ok(());
+        }
         self.remove_consolidate_text_nodes(
             self.previous_sibling(new_sibling),
             self.next_sibling(new_sibling),
@@ -394,8 +406,12 @@ impl Xot {
 
     /// Insert a new sibling before a reference node.
     pub fn insert_before(&mut self, reference_node: Node, new_sibling: Node) -> Result<(), Error> {
-        self.sibling_reference_check(reference_node)?;
+        self.sibling_reference_check(reference_node, new_sibling)?;
         self.add_structure_check(self.parent(reference_node), new_sibling)?;
+        // nothing to do if the node precedes the reference node already
+        if self.previous_sibling(reference_node) == Some(new_sibling) {
+            return Ok(());
+        }
         self.remove_consolidate_text_nodes(
             self.previous_sibling(new_sibling),
             self.next_sibling(new_sibling),
@@ -925,10 +941,16 @@ impl Xot {
     // the reference node of insert_after / insert_before has to be a normal
     // child: next to an attribute or namespace node there is no position for
     // a normal child
-    fn sibling_reference_check(&self, reference_node: Node) -> Result<(), Error> {
+    fn sibling_reference_check(&self, reference_node: Node, new_sibling: Node) -> Result<(), Error> {
         if self.value(reference_node).value_category() != ValueCategory::Normal {
             return Err(Error::InvalidOperation(
                 "Cannot insert a sibling next to an attribute or namespace node".into(),
+            ));
+        }
+        // refuse this before any text node is consolidated
+        if reference_node == new_sibling {
+            return Err(Error::InvalidOperation(
+                "Cannot insert a node next to itself".into(),
             ));
         }
         Ok(())
